@@ -240,10 +240,15 @@ class Parser:
     def _parse(self) -> AST:
         root = AST(source=self.source)
 
+        self._skip_comments()
         token = self._assert_and_cunsume(TokenType.BRACKET_LEFT)
         root.tokens.append(token)
 
         while (token := self.next_token) is not None:
+            if token.type == TokenType.COMMENT:
+                self._read_token()
+                continue
+
             if token.type == TokenType.BRACKET_RIGHT:
                 break
 
@@ -276,6 +281,7 @@ class Parser:
         t2 = self._assert_and_cunsume(TokenType.BRACKET_RIGHT)
         node.tokens.append(t2)
 
+        self._skip_comments()
         t3 = self._assert_and_cunsume(TokenType.BRACKET_LEFT)
         node.tokens.append(t3)
 
@@ -373,6 +379,12 @@ class Parser:
         node = ASTNode(ASTType.COMMENT, ASCComment(t1.value), tokens=[t1])
         root.add_child(node)  # ? where the comment should be added
         return node
+
+    def _skip_comments(self) -> None:
+        while (
+            self.next_token is not None and self.next_token.type == TokenType.COMMENT
+        ):
+            self._read_token()
 
     def _read_token(self) -> None:
         self.next_token = next(self.lexer, None)
